@@ -6,6 +6,8 @@
 //	main_test.go     reference model (written from the statement), address forms, probe remotes
 //	rules_test.go    rule histories against a fault-injecting, snapshotting datastore double
 //	outbound_test.go the real gater in a real swarm over scripted transports (outbound)
+//	dialapi_test.go  the entry points that start an outbound attempt (Network.DialPeer, Network.NewStream's
+//	                 implicit dial, BasicHost.Connect / NewStream) and the answering side of scripted streams
 //	inbound_test.go  the real gater behind the real upgrader over in-memory conns (inbound)
 //	quic_test.go     the QUIC and WebTransport transports' own gating call sites over simnet, under both
 //	                 ConnManager configurations (bare / scope opened at accept as in libp2p.New)
@@ -43,13 +45,16 @@ func TestMain(m *testing.M) {
 			"a gater reopened on the newest snapshot (call in flight may go either way) and, on 'reopen', a gater reopened on the final datastore are compared with a reference "+
 			"model (set of rules whose call returned success) through ListBlocked* and all Intercept* hooks for probe remotes in every address form "+
 			"(/ip4, /ip6, /ip6/::ffff:a.b.c.d in three spellings, ip6zone, first/last address of each subnet and the neighbours just outside, IP-less addresses, several transport suffixes). "+
-			"(b) the real gater (optionally reopened from its datastore) inside a real swarm over scripted transports with a fake DNS resolver: every recorded transport dial, every DialPeer "+
-			"result, ConnsToPeer and Connected notifications are audited against the model over two phases with rule changes in between. "+
+			"(b) the real gater (optionally reopened from its datastore) inside a real swarm over scripted transports with a fake DNS resolver; every outbound attempt is started, with no connection "+
+			"to the peer in place, through a generated entry point: Network.DialPeer, Network.NewStream (the swarm's implicit dial) and, in a third of the cases, Connect / NewStream of a real BasicHost "+
+			"built on that swarm (the scripted remotes answer multistream for one probe protocol, 'na' to identify); every recorded transport dial, the result of the starting call (error, or the "+
+			"connection / stream's connection it handed out), ConnsToPeer and Connected notifications are audited against the model over two phases with rule changes in between, by the same rule whatever call started the attempt. "+
 			"(c) the real gater behind the real upgrader (Noise + yamux) on an in-memory listener inside a real swarm: per inbound attempt the raw server-side conn's byte counters, "+
 			"its closure and the swarm's admission are audited; the QUIC and the WebTransport transports' own call sites (listener and dialer) run over simnet with arbitrary source IPs, "+
 			"WebTransport alone or next to QUIC on the same ConnManager and UDP port, each under both ConnManager configurations: bare quicreuse.NewConnManager, and with the ConnContext option "+
 			"of libp2p.New's default ConnManager that opens the resource-manager scope when the QUIC connection is accepted (the listeners then find the scope in the connection context); "+
-			"per attempt the gated swarm's ConnsToPeer/Connected, the DialPeer result and the remote's view (no inbound connection from a gated dial; no connection left open from a refused inbound one) are audited. "+
+			"per attempt the gated swarm's ConnsToPeer/Connected, the result of the starting call (outbound: Network.DialPeer or Network.NewStream's implicit dial, generated) and the remote's view "+
+			"(no inbound connection from a gated dial; no connection left open from a refused inbound one) are audited. "+
 			"Per history every crash point is enumerated (one snapshot per applied write); histories, faults and remotes are sampled. "+
 			"Non-trivial = a probed/dialled/accepted remote matches a rule in force through a non-canonical form (mapped spelling, 16-byte rule vs 4-byte remote, subnet rule hit at an edge address, "+
 			"resolved DNS name) or the case contains a reopen on a non-empty rule set; distinct = distinct (pool, op history, attempts).",
